@@ -383,8 +383,8 @@ func (p *VipnodePool) requestHosts(ctx context.Context, nodeID string, numReques
 	}
 
 	var hosts []store.Node
-	if numRequestHosts == 0 {
-		// Nothing left to do
+	if numRequestHosts <= 0 {
+		// Nothing left to do: a zero or negative request asks for no hosts.
 		return hosts, nil
 	}
 
